@@ -79,9 +79,23 @@ func encAny(v any, b *[]string) {
 }
 
 // opsClass: outcome class of decoding the operations field (library code: encoding/json).
-func opsClass(data []byte) (string, bool) {
+// errAfter yields data and then the read error the MIME reader reported (nil: EOF).
+type errAfter struct {
+	r   io.Reader
+	err error
+}
+
+func (e *errAfter) Read(p []byte) (int, error) {
+	n, err := e.r.Read(p)
+	if err == io.EOF && e.err != nil {
+		err = e.err
+	}
+	return n, err
+}
+
+func opsClass(data []byte, rerr error) (string, bool) {
 	var m rawMirror
-	dec := json.NewDecoder(bytes.NewReader(data))
+	dec := json.NewDecoder(&errAfter{bytes.NewReader(data), rerr})
 	dec.UseNumber()
 	if err := dec.Decode(&m); err != nil {
 		return "E", false
@@ -95,9 +109,9 @@ func opsClass(data []byte) (string, bool) {
 	return "V" + strings.Join(b, ","), std
 }
 
-func mapClass(data []byte) string {
+func mapClass(data []byte, rerr error) string {
 	m := map[string][]string{}
-	if err := json.NewDecoder(bytes.NewReader(data)).Decode(&m); err != nil {
+	if err := json.NewDecoder(&errAfter{bytes.NewReader(data), rerr}).Decode(&m); err != nil {
 		return "E"
 	}
 	keys := make([]string, 0, len(m))
@@ -114,6 +128,21 @@ func mapClass(data []byte) string {
 		es = append(es, hx(k)+"="+strings.Join(ps, "|"))
 	}
 	return "M" + strings.Join(es, "&")
+}
+
+// selfDelim: does the first JSON value of data end with '}' (the decoder needs no look-ahead to
+// finish it)? Literals such as null are only complete once the decoder sees the end of the part.
+func selfDelim(data []byte) byte {
+	dec := json.NewDecoder(bytes.NewReader(data))
+	var v json.RawMessage
+	if err := dec.Decode(&v); err != nil {
+		return '1'
+	}
+	t := bytes.TrimSpace(v)
+	if len(t) > 0 && t[len(t)-1] == '}' {
+		return '1'
+	}
+	return '0'
 }
 
 func (p *part) header() string {
@@ -237,6 +266,7 @@ func (c *mpCase) run(tmpdir string) {
 		size                  int
 		fault                 byte
 		data                  []byte
+		rerr                  error
 	}
 	var evs []ev
 	term := "eof"
@@ -254,6 +284,7 @@ func (c *mpCase) run(tmpdir string) {
 		e := ev{name: p.FormName(), filename: p.FileName(), ctype: p.Header.Get("Content-Type"), size: len(data), fault: 'n', data: data}
 		if rerr != nil {
 			e.fault = 'r'
+			e.rerr = rerr
 		}
 		evs = append(evs, e)
 	}
@@ -262,11 +293,14 @@ func (c *mpCase) run(tmpdir string) {
 		panic(fmt.Sprintf("harness: oracle sees %d parts, built %d (%s)", len(evs), len(c.parts), c.desc))
 	}
 	ops, mp, std := "-", "-", false
+	sd := []byte("11")
 	if len(evs) > 0 {
-		ops, std = opsClass(evs[0].data)
+		ops, std = opsClass(evs[0].data, evs[0].rerr)
+		sd[0] = selfDelim(evs[0].data)
 	}
 	if len(evs) > 1 {
-		mp = mapClass(evs[1].data)
+		mp = mapClass(evs[1].data, evs[1].rerr)
+		sd[1] = selfDelim(evs[1].data)
 	}
 	var pe []string
 	for i, e := range evs {
@@ -298,7 +332,7 @@ func (c *mpCase) run(tmpdir string) {
 	if std {
 		q = "Q1"
 	}
-	enc := fmt.Sprintf("%d %d %d %d %d %s %s %s %s %s %s %s", c.maxUp, c.maxMem, cl, len("\r\n--"+boundary), tail, fault, ctClass, q, ops, mp, strings.Join(pe, ";"), term)
+	enc := fmt.Sprintf("%d %d %d %d %d %s %s %s %s %s %s %s %s", c.maxUp, c.maxMem, cl, len("\r\n--"+boundary), tail, fault, ctClass, q, ops, mp, sd, strings.Join(pe, ";"), term)
 
 	// ---- the real thing
 	e := &env{tmpdir: tmpdir}
